@@ -189,7 +189,21 @@ def replay(prop, path):
     still = 0
     for v in rep.get("violations", []):
         try:
-            if "alg" in v and "box" in v:
+            if v.get("kind") == "trigger":
+                import trig_sweep
+
+                bad = trig_sweep.check_one(v["alg"], v["params"], v["box"])
+                print(("STILL FAILS " if bad else "passes now  ") + json.dumps({k: v[k] for k in ("alg", "params", "box")}) + (" :: " + bad if bad else ""))
+                still += 1 if bad else 0
+            elif v.get("op") == "split_solve":
+                import corr_engine as ce
+
+                a_ = ce._exec_case(dict(v, prior=False))
+                b_ = ce._exec_case(dict(v, prior=True))
+                bad = list(a_[1:]) != list(b_[1:])
+                print(("STILL FAILS " if bad else "passes now  ") + json.dumps({"op": "split_solve", "problem": v["problem"], "k": v["k"], "v": v["v"]})[:300])
+                still += 1 if bad else 0
+            elif "alg" in v and "box" in v:
                 box = [tuple(d) for d in v["box"]]
                 st, out = nv.impl_prop(v["alg"], v["params"], box)
                 bad = props_sweep.check_case(v["alg"], v["params"], box, st, out, {"sound", "ground", "entail", "exact", "oob", "term"})
@@ -200,7 +214,12 @@ def replay(prop, path):
                 c.setdefault("op", "solve")
                 prob = nv.Prob.from_json(c["problem"])
                 cfg = nv.Cfg(**c["cfg"])
-                res = nv.impl_solve(prob, cfg, c.get("limit")) if c["op"] == "solve" else nv.impl_optimize(prob, cfg, c["v"], c["minimize"])
+                if c.get("observe"):
+                    import corr_engine as ce
+
+                    res = ce._exec_case(c)
+                else:
+                    res = nv.impl_solve(prob, cfg, c.get("limit")) if c["op"] == "solve" else nv.impl_optimize(prob, cfg, c["v"], c["minimize"])
                 bad = _solver.direct_checks(c, res, {"sat", "enum", "opt", "stats", "term", "oob", "stack", "crash"})
                 print(("STILL FAILS " if bad else "passes now  ") + json.dumps({"op": c["op"], "problem": c["problem"]})[:300] + (" :: " + bad[0][1] if bad else ""))
                 still += 1 if bad else 0
